@@ -216,8 +216,39 @@ def build_real(case):
             else:
                 raise ValueError(c)
         assert not stack
-        phases.append(cb.as_execution_phase(ph["next"]))
+        phase = cb.as_execution_phase(ph["next"])
+        if case.get("raw_guards"):
+            phase = inline_guards(phase)
+        phases.append(phase)
     return DAGCode.from_phases_list(phases, case["initial"])
+
+
+def inline_guards(phase):
+    """the same phase as a hand-written method description: every `<cond>` flag is replaced by the expression it
+    was assigned (the statements carry the comparisons themselves as guards, which the statement language allows and
+    verify_code accepts), the flag assignments are dropped, and the statements are chained by dependency edges in
+    the order they were written, so that the only admissible schedule is the written one.  A guard is then
+    evaluated when its statement is reached, not where the `if` stood."""
+    from pymbolic import substitute
+    from pymbolic.primitives import Variable
+    flags, kept = {}, []
+
+    def written(st):        # the builder numbers its statements <phase>_<n> in the order they were written
+        tail = st.id.rsplit("_", 1)[-1]
+        return (int(tail) if tail.isdigit() else -1, st.id)
+    for st in sorted(phase.statements, key=written):
+        cond = st.condition
+        if not isinstance(cond, bool):
+            cond = substitute(cond, {Variable(n): e for n, e in flags.items()})
+        if type(st).__name__ == "Assign" and st.assignee.startswith("<cond>") and not st.loops:
+            flags[st.assignee] = substitute(st.expression, {Variable(n): e for n, e in flags.items()})
+            continue
+        kept.append(st.copy(condition=cond))
+    out = []
+    for k, st in enumerate(kept):
+        out.append(st.copy(depends_on=frozenset([kept[k - 1].id] if k else [])))
+    from dagrt.language import ExecutionPhase
+    return ExecutionPhase(phase.name, phase.next_phase, out)
 
 
 def prog_exprs(case):
@@ -664,9 +695,46 @@ def is_power_finding(case, o):
         return False
 
 
+def guard_rewritten_under_itself(case):
+    """hand-written guards only: inside an if block, a statement assigns a variable of the block's own condition
+    and another statement of the same block follows it (so that two adjacent statements carry one guard, the first
+    of which changes the guard's value)"""
+    if not case.get("raw_guards"):
+        return False
+
+    def vars_of(e, acc):
+        if isinstance(e, list):
+            if len(e) == 2 and e[0] == "var" and isinstance(e[1], str):
+                acc.add(e[1])
+            for c in e:
+                vars_of(c, acc)
+        return acc
+    for ph in case["phases"]:
+        stack, last_if = [], set()      # frames: [variables of the block's condition, a statement of the block wrote one]
+        for c in ph["prog"]:
+            if c[0] == "if":
+                stack.append([vars_of(c[1], set()), False])
+            elif c[0] == "else":
+                stack.append([set(last_if), False])
+            elif c[0] in ("endif", "endelse"):
+                fr = stack.pop()
+                last_if = fr[0] if c[0] == "endif" else set()
+            elif c[0] == "stmt":
+                if any(fr[1] for fr in stack):
+                    return True
+                k = c[1]
+                written = [k[1]] if k[0] == "assign" else list(k[1]) if k[0] == "call" else []
+                for fr in stack:
+                    if any(w in fr[0] for w in written):
+                        fr[1] = True
+    return False
+
+
 def classify(case, o):
     """narrow classes used for known findings"""
     feats = features(case)
+    if o["kind"] == "state_differs" and guard_rewritten_under_itself(case):
+        return "merged_guard_reevaluated"
     if o["kind"] == "generation_error" and o["exception"] == "ValueError" and "NoneType" in o["message"] \
             and "pow" in feats:
         return "power_kind_none"
@@ -1739,7 +1807,7 @@ def run_all(cases):
 
 
 def strip(case):
-    return {k: v for k, v in case.items() if k in ("phases", "initial", "init", "nsteps")}
+    return {k: v for k, v in case.items() if k in ("phases", "initial", "init", "nsteps", "raw_guards")}
 
 
 def main(tier):
@@ -1784,7 +1852,8 @@ def main(tier):
     # correspondence with the Coq model
     terms, term_idx = [], []
     for ci, (case, res) in enumerate(zip(cases, results)):
-        t = None if ci in known_idx else case_term(case, res)
+        # hand-written guards (raw_guards) are outside the builder model: implementation-level oracle only
+        t = None if ci in known_idx or case.get("raw_guards") else case_term(case, res)
         if t is not None:
             terms.append(t)
             term_idx.append(ci)
